@@ -342,6 +342,26 @@ impl Check for C13 {
         } else {
             p.variants.clone()
         };
+        // the noodles-util facade cannot open some intact files at all (e.g. an empty bgzipped SAM: its
+        // format detection needs four decoded bytes) — a defect of the pure detection step, not of its
+        // handling of truncation: such a file is not read through the facade
+        let variants: Vec<u8> = variants
+            .into_iter()
+            .filter(|&v| {
+                if !kinds::is_util_variant(p.file.kind, v) {
+                    return true;
+                }
+                let o = kinds::read(p.file.kind, v, crate::fmt::Source::plain(made.bytes.clone()));
+                let ok = o.end == End::Eof;
+                if !ok {
+                    ctx.stats.probe("facade_cannot_read_intact_file", 1);
+                }
+                ok
+            })
+            .collect();
+        if variants.is_empty() {
+            return Vec::new();
+        }
         let file_hash = prng::hash_bytes(&made.bytes);
         let mut findings: Vec<Finding> = Vec::new();
         let mut seen_sig: std::collections::BTreeSet<String> = Default::default();
